@@ -9,6 +9,7 @@ import (
 	"os"
 	"path/filepath"
 	"regexp"
+	"sort"
 	"strconv"
 	"strings"
 
@@ -32,6 +33,7 @@ type world struct {
 	pkgOfFile      map[string]*packages.Package
 	inlineExternal map[string]bool
 	trustedExt     map[string]*contract
+	classes        *typeClasses
 }
 
 func loadWorld(patterns []string) (*world, error) {
@@ -63,6 +65,13 @@ func loadWorld(patterns []string) (*world, error) {
 	if len(pkgs) > 0 {
 		w.fset = pkgs[0].Fset
 	}
+	w.classes = newTypeClasses()
+	seenP := map[*types.Package]bool{}
+	for _, p := range pkgs {
+		if p.Types != nil {
+			w.classes.scanPackage(p.Types, seenP)
+		}
+	}
 	for _, p := range pkgs {
 		for i, f := range p.Syntax {
 			name := p.CompiledGoFiles[i]
@@ -81,14 +90,36 @@ func (w *world) contractsFor(pkgPath string) *contractFile {
 	var cf *contractFile
 	if strings.HasPrefix(pkgPath, modulePath) {
 		dir := filepath.Join(repoDir, strings.TrimPrefix(pkgPath, modulePath))
-		path := filepath.Join(dir, "zz_verif_contracts.go")
-		if b, err := os.ReadFile(path); err == nil {
+		// one or more files per package: zz_verif_contracts.go, zz_verif_contracts_<topic>.go
+		paths, _ := filepath.Glob(filepath.Join(dir, "zz_verif_contracts*.go"))
+		sort.Strings(paths)
+		for _, path := range paths {
+			b, err := os.ReadFile(path)
+			if err != nil {
+				continue
+			}
 			c, err := parseContractFile(path, string(b))
 			if err != nil {
 				fmt.Fprintln(os.Stderr, "contract file error:", err)
 				os.Exit(2)
 			}
-			cf = c
+			if cf == nil {
+				cf = c
+				continue
+			}
+			for k, v := range c.funcs {
+				if _, dup := cf.funcs[k]; dup {
+					fmt.Fprintf(os.Stderr, "contract file error: duplicate contract for %s in %s\n", k, path)
+					os.Exit(2)
+				}
+				cf.funcs[k] = v
+			}
+			for k, v := range c.ifaces {
+				cf.ifaces[k] = v
+			}
+			for k, v := range c.trusted {
+				cf.trusted[k] = v
+			}
 		}
 	}
 	if cf == nil {
@@ -223,6 +254,8 @@ type contract struct {
 	loopAssign map[int][]string
 	assigns    []string // expressions naming objects the function may write; nil = unknown (havoc all); ["nothing"]
 	hasAssigns bool
+	reads      []string // pure functions: pointer parameters whose pointee object is all the function reads (assumed)
+	assumedFrame bool
 	inline     bool
 	noinline   bool
 	panicsWhen string
@@ -308,11 +341,21 @@ func parseContractFile(path, src string) (*contractFile, error) {
 			cur.hasAssigns = true
 			for _, a := range splitTopLevel(rest("assigns"), ',') {
 				a = strings.TrimSpace(a)
+				if a == "internal" {
+					// the callee may also update its own internal state, which the verified callers never read: an
+					// ASSUMED frame (listed in the evidence, never checked against the callee's body)
+					cur.assumedFrame = true
+					continue
+				}
 				if a != "" && a != "nothing" {
 					cur.assigns = append(cur.assigns, a)
 				}
 			}
 			lastClause = nil
+		case "reads":
+			for _, a := range splitTopLevel(rest("reads"), ',') {
+				cur.reads = append(cur.reads, strings.TrimSpace(a))
+			}
 		case "inline":
 			cur.inline = true
 		case "noinline":
